@@ -6,6 +6,8 @@ import (
 
 type structValue struct{ wrapperValue }
 
+var errorType = reflect.TypeOf((*error)(nil)).Elem()
+
 func (sv structValue) IndexValue(index Value) Value {
 	return sv.PropertyValue(index)
 }
@@ -97,8 +99,13 @@ func (sv structValue) invoke(fv reflect.Value) Value {
 	if fv.IsNil() {
 		return nilValue
 	}
+	// callable from a template: no arguments, and a value optionally followed by an error
+	// (time.Time.Zone, for one, returns two values that are not that)
 	mt := fv.Type()
-	if mt.NumIn() > 0 || mt.NumOut() > 2 {
+	if mt.NumIn() > 0 || mt.NumOut() == 0 || mt.NumOut() > 2 {
+		return nilValue
+	}
+	if mt.NumOut() == 2 && !mt.Out(1).Implements(errorType) {
 		return nilValue
 	}
 	results := fv.Call([]reflect.Value{})
